@@ -117,13 +117,14 @@ theorem not_continue_dead {live : Bool} {body : Stmt} {x b' : A} (hb : PostS liv
   | true => rw [hb.p2c hh] at h; cases h
 
 theorem whileTail_ok (live tt : Bool) (body : Stmt) (x b' : A) (hb : PostS live body x b') :
-    TailOK live (!tt || (body.compl []).b) body.pos [] b' (whileTail tt body.pos b') := by
+    TailOK live (!tt || (body.compl []).b) body.pos [] b' (whileTail tt body.isDeclOrExpr body.pos b') := by
   unfold whileTail
   simp only
-  by_cases h1 : (tt && isForcedEnd (b'.info.endAt body.pos) && !(b'.sc.foundBreak == some none)) = true
+  generalize stmtEnd body.isDeclOrExpr b'.info body.pos = er
+  by_cases h1 : (tt && isForcedEnd er && !(b'.sc.foundBreak == some none)) = true
   · simp only [h1, if_true]
     simp only [Bool.and_eq_true, Bool.not_eq_true'] at h1
-    rcases her : b'.info.endAt body.pos with _ | e
+    rcases her : er with _ | e
     · rw [her] at h1; simp at h1
     · simp only
       refine ⟨fun q hq _ => markAsEnd_info_other _ _ _ _ hq, fun q => by simp, by simp, by simp, ⟨e, rfl⟩, ?_, by simp⟩
@@ -152,13 +153,13 @@ theorem while_ok (live : Bool) (p : Nat) (test : Kids) (tt : Bool) (body : Stmt)
     PostS live (.whileS p test tt body) a (visitStmt (.whileS p test tt body) a) := by
   have hnd := List.nodup_cons.mp hpre.nodup
   have hv : visitStmt (.whileS p test tt body) a =
-      visitKids test (withChild .loop body.pos (fun x => whileTail tt body.pos (visitStmt body x)) (flagA a p .other)) := by
+      visitKids test (withChild .loop body.pos (fun x => whileTail tt body.isDeclOrExpr body.pos (visitStmt body x)) (flagA a p .other)) := by
     simp [visitStmt, flagA]
   rw [hv]
-  have hc := loopCore live (!tt || (body.compl []).b) p body.pos body [] (whileTail tt body.pos) (flagA a p .other) rfl
+  have hc := loopCore live (!tt || (body.compl []).b) p body.pos body [] (whileTail tt body.isDeclOrExpr body.pos) (flagA a p .other) rfl
     hpre.hs (fun q hq => by rw [flagA_endAt]; exact hpre.fresh q (List.mem_cons_of_mem _ hq)) hpre.nodup ih
     (fun b' hb => whileTail_ok live tt body _ b' hb)
-  generalize withChild .loop body.pos (fun x => whileTail tt body.pos (visitStmt body x)) (flagA a p .other) = r at hc
+  generalize withChild .loop body.pos (fun x => whileTail tt body.isDeclOrExpr body.pos (visitStmt body x)) (flagA a p .other) = r at hc
   have hs := visitKids_flat test r ht
   generalize visitKids test r = fin at hs
   obtain ⟨hn, hb0, hc0⟩ := while_n p test tt body
